@@ -19,7 +19,7 @@ RULE = ("run = pool of 2-7 named games (paper/example files, generator boards, r
         "depth; non-trivial = a batch with >=2 games of which one prunes something, or a failing game adjacent to a solvable one; "
         "distinct = hash of (batch shapes, game hashes, fault kinds fired)")
 
-NAMES = ["g", "game_a", "game_b", "x1", "fig_5_5", "a", "b2", "robot_47", "test", "n0", "big_reward", "z_9"]
+NAMES = ["g", "game_a", "game_b", "x1", "fig_5_5", "a", "b2", "robot_47", "test", "n0", "big_reward", "z_9", "g_", "_", "0", "a_no", "x"*3 + "_" + "9"*40, "no_prune"]
 RESULT_KEYS = ("final_strategies", "reachability_strategies", "rewards", "probabilities",
                "n_iterations_reach", "n_iterations_rew", "prob_min_rew", "rew_min_reach")
 
@@ -64,6 +64,8 @@ def gen(rng, tier, ctx):
         r = rng.random()
         k = rng.randint(1, min(n, 6))
         games = rng.sample(range(n), k)
+        if rng.random() < 0.03:
+            games = []          # an empty dictionary of games is a legal input
         if klass == "collision" and rng.random() < 0.7:
             games = [0, 1] + [g for g in games if g > 1]
         env = common.gen_env(rng, faulty=(klass != "plain"))
@@ -276,8 +278,10 @@ def execute(spec, w, ctx):
             events.append([i_op, "restart"])
             continue
         games = usable(op.get("games", []))
-        if not games:
+        if not games and op.get("games"):
             continue
+        if not games:
+            w.probe("empty-batch")
         probes(games)
         shapes.append(kind + ":" + ",".join(kinds[g][0] for g in games))
         cfg = common.env_cfg(op)
